@@ -228,7 +228,7 @@ class Spec:
         if name == "hash" and len(a) == 1:
             return (None, None) if obs["k"] == "hash" else ("no hash line", None)
         if name == "shape":
-            return None, None       # model-only op; the harness answers "bad"
+            return None, None       # internal state of the hash table: compared Impl vs Model (tie), no Spec opinion
         return (None, None) if obs["k"] == "bad" else ("malformed line was not rejected: %r" % (obs,), None)
 
 
@@ -259,6 +259,11 @@ def judge(exe_i, exe_m, ops, want_model=True):
             v.tie = (len(om), "model driver exited with %d after %d ops: %s" % (rcm, len(om), tailm[-500:]))
         for i in range(min(len(oi), len(om))):
             if ops[i].startswith("shape"):
+                # the resize state machine itself: bucket_bit, low_max, split, state must agree at every probe
+                if oi[i].get("shape") != om[i].get("shape"):
+                    if v.tie is None or i < v.tie[0]:
+                        v.tie = (i, "hash table shape after op %d: Impl %r, Model %r" % (i, oi[i].get("shape"), om[i].get("shape")))
+                    break
                 continue
             if strict(oi[i]) != strict(om[i]):
                 if v.tie is None or i < v.tie[0]:
@@ -634,7 +639,7 @@ def report(chk, exe_i, exe_m, name, ops, v, kind, pr):
     def still(sub):
         w = judge(exe_i, exe_m, sub, want_model=(kind == "tie"))
         return {"tie": w.tie, "spec": w.spec, "known": w.known}[kind] is not None
-    start = [o for o in ops if not o.startswith("shape")]      # model-only probes never matter for a failure
+    start = list(ops)
     if not still(start):
         start = list(ops)
     small = ddmin(start, still)
